@@ -38,6 +38,7 @@ type pmCase struct {
 	KStart  uint64     `json:"kstart"`
 	KEnd    uint64     `json:"kend"`
 	Early   int        `json:"early,omitempty"` // C02: number of early allocations
+	Tables  int        `json:"tables,omitempty"` // frames the map seam takes for page tables on its first call
 	Ops     []pmOp     `json:"ops,omitempty"`
 }
 
@@ -142,8 +143,18 @@ func pmSetup(c pmCase) *pmEnv {
 		env.reserved = append(env.reserved, mem)
 		return vlib.AddrOf(mem), nil
 	}
+	tablesLeft := c.Tables
 	mapFn = func(_ mm.Page, f mm.Frame, _ vmm.PageTableEntryFlag) *kernel.Error {
 		env.early = append(env.early, uint64(f))
+		// the real vmm.Map allocates frames for missing page-table levels from the same
+		// (early) allocator: simulate that on the first call
+		for ; tablesLeft > 0; tablesLeft-- {
+			tf, err := mm.AllocFrame()
+			if err != nil {
+				return err
+			}
+			env.early = append(env.early, uint64(tf))
+		}
 		return nil
 	}
 	kfmt.SetOutputSink(pmLogSink{env})
